@@ -12,7 +12,6 @@ import (
 	"unicode/utf8"
 
 	"github.com/cockroachdb/redact"
-	"github.com/cockroachdb/redact/interfaces"
 	"github.com/cockroachdb/redact/verifharness/lib"
 )
 
@@ -32,44 +31,8 @@ type writerCase struct {
 	H    []lib.SOp `json:"h"`
 }
 
-// runWriterOps issues the calls on a SafeWriter; wr is its plain io.Writer side.
 func runWriterOps(c *lib.Ctx, ops []lib.SOp, w redact.SafeWriter, wr io.Writer) {
-	for _, op := range ops {
-		switch op.O {
-		case "SafeString":
-			w.SafeString(redact.SafeString(c.Subst(op.B)))
-		case "UnsafeString":
-			w.UnsafeString(string(c.Subst(op.B)))
-		case "SafeBytes":
-			w.SafeBytes(interfaces.SafeBytes(c.Subst(op.B)))
-		case "UnsafeBytes":
-			w.UnsafeBytes(c.Subst(op.B))
-		case "SafeRune":
-			w.SafeRune(redact.SafeRune(op.N))
-		case "UnsafeRune":
-			w.UnsafeRune(rune(op.N))
-		case "SafeByte":
-			w.SafeByte(interfaces.SafeByte(op.N))
-		case "UnsafeByte":
-			w.UnsafeByte(byte(op.N))
-		case "SafeInt":
-			w.SafeInt(redact.SafeInt(op.N))
-		case "SafeUint":
-			w.SafeUint(redact.SafeUint(uint64(int64(op.N))))
-		case "SafeFloat":
-			w.SafeFloat(redact.SafeFloat(c.Value(op.Ts[0]).(float64)))
-		case "Write":
-			wr.Write(c.Subst(op.B))
-		case "Print":
-			w.Print(c.Values(op.Ts)...)
-		case "Printf":
-			w.Printf(string(c.Subst(op.F)), c.Values(op.Ts)...)
-		case "JoinTo":
-			redact.JoinTo(w, redact.RedactableString(c.Subst(op.B)), c.Value(op.Ts[0]))
-		default:
-			panic("writer op " + op.O)
-		}
-	}
+	c.RunWriterOps(ops, w, wr)
 }
 
 type sfOps struct {
@@ -147,9 +110,17 @@ func denoteWriterOps(c *lib.Ctx, h []lib.SOp) (strip, vis []byte, ok bool) {
 		case "SafeString", "SafeBytes":
 			b := c.Subst(op.B)
 			add(b, true, utf8.Valid(b))
-		case "UnsafeString", "UnsafeBytes", "Write":
+		case "UnsafeString", "UnsafeBytes", "Write", "WriteString":
 			b := c.Subst(op.B)
 			add(b, false, utf8.Valid(b))
+		case "WriteRune":
+			add([]byte(string(rune(op.N))), false, utf8.ValidRune(rune(op.N)))
+		case "WriteByte":
+			if op.N >= 128 {
+				add([]byte{'?'}, false, false)
+			} else {
+				add([]byte{byte(op.N)}, false, true)
+			}
 		case "SafeRune":
 			add([]byte(string(rune(op.N))), true, utf8.ValidRune(rune(op.N)))
 		case "UnsafeRune":
@@ -253,7 +224,7 @@ func opsString(h []lib.SOp) string {
 			sb.WriteString("; ")
 		}
 		switch op.O {
-		case "SafeRune", "UnsafeRune", "SafeByte", "UnsafeByte", "SafeInt", "SafeUint", "SafeFloat":
+		case "SafeRune", "UnsafeRune", "SafeByte", "UnsafeByte", "SafeInt", "SafeUint", "SafeFloat", "WriteByte", "WriteRune":
 			fmt.Fprintf(&sb, "%s(%#x)", op.O, op.N)
 		case "Print", "Printf":
 			fmt.Fprintf(&sb, "%s(%v %s)", op.O, op.F, termsString(op.Ts))
